@@ -1343,8 +1343,8 @@ func (s *session) startResponder(ep *endpoint) {
 					s.respLog = append(s.respLog, fmt.Sprintf("node asked %s (%s); answered by policy %q with %s of %d items", codeName(rq.code), clip(rq.data, 12), s.policy, codeName(code), nv))
 				}
 				s.respMu.Unlock()
-				if ep.deliverBytes(code, payload, fmt.Sprintf("responder (%s) answering %s with %s of %d bytes", s.policy, codeName(rq.code), codeName(code), len(payload))) == stalled {
-					return
+				if o := ep.deliverBytes(code, payload, fmt.Sprintf("responder (%s) answering %s with %s of %d bytes", s.policy, codeName(rq.code), codeName(code), len(payload))); o == stalled || o == blocked {
+					return // the main flow reports a verdict (unreportedBlocks)
 				}
 			}
 		}
@@ -1465,6 +1465,12 @@ func (s *session) connectHonest() bool {
 	}
 	o := ep.deliverBytes(codeStatus, mustEnc(s.status(1, s.hashAt(1))), "honest status")
 	s.note("honest peer connects with a valid status -> %v", o)
+	atomic.StoreUint64(&ep.claimTD, 1)
+	if o == blocked {
+		s.aborted = true
+		s.blockedFail(ep, "the honest peer's status")
+		return false
+	}
 	if o == stalled {
 		s.aborted = true
 		inconclusive(c, "honest handshake made no progress", dumpAll())
@@ -1488,9 +1494,14 @@ func (s *session) honestAsk(code uint64, payload []byte, want uint64, descr stri
 	ep.fresh()
 	c.Checkpoint()
 	o := ep.deliverBytes(code, payload, descr)
+	if o == blocked {
+		s.aborted = true
+		s.blockedFail(ep, "the honest peer's "+descr)
+		return nil, false
+	}
 	if o == stalled {
 		s.aborted = true
-		inconclusive(c, "honest request got no progress: "+descr, dumpAll())
+		inconclusive(c, "honest request got no progress: "+descr+" (not classified as blocked: "+ep.whyNot+")", dumpAll())
 		return nil, false
 	}
 	if o == dropped {
@@ -1754,9 +1765,14 @@ func sessionProp(c *pbt.C) {
 	// barrier: every import started by what was delivered has finished
 	c.Checkpoint()
 	if o := s.honest.deliverBytes(codeBlocks, []byte{0xC0}, "empty BlocksMsg (barrier)"); o != delivered {
+		if o == blocked {
+			s.aborted = true
+			s.blockedFail(s.honest, "the honest peer's empty BlocksMsg")
+			return
+		}
 		if o == stalled {
 			s.aborted = true
-			inconclusive(c, "barrier message made no progress", dumpAll())
+			inconclusive(c, "barrier message made no progress (not classified as blocked: "+s.honest.whyNot+")", dumpAll())
 			return
 		}
 		if s.honest.res.panicked {
@@ -1778,6 +1794,7 @@ func sessionProp(c *pbt.C) {
 		return
 	}
 	s.unreportedPanics()
+	s.unreportedBlocks()
 	for _, ep := range s.eps {
 		s.checkOutgoing(ep, "the session", -1, false)
 	}
@@ -1948,6 +1965,7 @@ func (s *session) hostConnect(kind string) bool {
 		size = len(payload)
 	}
 	c.Checkpoint()
+	atomic.StoreUint64(&ep.claimTD, st.TD)
 	o := ep.deliver(code, uint32(size), bytes.NewReader(payload), "handshake "+kind)
 	s.note("hostile peer %x connects, handshake %s (code %d, %s) -> %v (%v)", ep.id[:3], kind, code, clip(payload, 12), o, ep.res.err)
 	if !s.afterDeliver(ep, o, codeStatus, "handshake", "handshake "+kind) {
@@ -2040,6 +2058,14 @@ func (s *session) sendHostile(m *hmsg) bool {
 			s.poolOK[b.Hash] = true
 		}
 	}
+	if m.code == codeNewBlock && m.payload != nil {
+		// a propagated momentum raises what the node believes this peer has (clause 4 of the stall rule)
+		var d *nom.DetailedMomentum
+		if streamDecode(m.payload, &d) == nil && d != nil && d.Momentum != nil && d.Momentum.Height > atomic.LoadUint64(&ep.claimTD) {
+			atomic.StoreUint64(&ep.claimTD, d.Momentum.Height)
+		}
+	}
+	s.unreportedBlocks()
 	c.Checkpoint()
 	o := ep.deliver(m.code, m.size, cr, m.descr)
 	s.note("#%d %s -> %v%s", s.msgNo, m.descr, o, errSuffix(ep, o))
@@ -2103,13 +2129,25 @@ func (s *session) shutdown() bool {
 	t0 := time.Now()
 	defer func() { s.c.R.Count("ms_teardown", int(time.Since(t0).Milliseconds())) }()
 	s.stopResponder()
+	var wedged []*endpoint
 	for _, ep := range s.eps {
+		if ep.wedged != nil {
+			// a blocked handler does not notice that its connection went away; stopping the manager
+			// (downloader.Terminate closes the cancel channel) may release it, so it is closed afterwards
+			wedged = append(wedged, ep)
+			continue
+		}
 		if !ep.close() {
 			inconclusive(s.c, "protocol function of "+ep.name+" did not return after its connection was closed", dumpAll())
 			s.leak()
 			return false // the follower's database stays open: the handler may still use it
 		}
 	}
+	defer func() {
+		for _, ep := range wedged {
+			_ = ep.net.Close()
+		}
+	}()
 	stopped := make(chan struct{})
 	go func() { s.pm.Stop(); close(stopped) }()
 	select {
@@ -2123,6 +2161,17 @@ func (s *session) shutdown() bool {
 	t1 := time.Now()
 	if d := t1.Sub(t0); d > time.Second && os.Getenv("VERIF_C15_DEBUG") != "" {
 		fmt.Fprintf(os.Stderr, "C15 slow Stop: %v\n", d)
+	}
+	for _, ep := range wedged {
+		_ = ep.net.Close()
+		select {
+		case <-ep.done:
+		case <-time.After(2 * time.Second):
+			// still parked: the follower cannot be removed under it
+			s.c.R.Count("wedged_handlers_left_behind", 1)
+			s.leak()
+			return false
+		}
 	}
 	ok, g := waitNone(managerActive)
 	if d := time.Since(t1); d > time.Second && os.Getenv("VERIF_C15_DEBUG") != "" {
